@@ -310,6 +310,7 @@ func (m *Model) RunTokPos(s *Sink, rule string) {
 							return ctxf.reach[a.Block()][b.Block()]
 						}
 						var between ssa.Instruction
+						nBetween := 0
 						for _, bb := range fn.Blocks {
 							for _, x := range bb.Instrs {
 								xc, isXC := x.(*ssa.Call)
@@ -321,7 +322,17 @@ func (m *Model) RunTokPos(s *Sink, rule string) {
 								}
 								if before(rc, x) && before(x, c) && !before(x, rc) {
 									between = x
+									nBetween++
 								}
+							}
+						}
+						// the reader may leave the lexer ON the closing delimiter and its caller skip it: one direct readChar,
+						// made only when the reader's verdict is true, after a reader that — evaluated on real lexer states for
+						// a non-empty and an empty literal — stops on the character it started on
+						if between != nil && nBetween == 1 {
+							if why := m.skipsDelimiterForReader(rc, between, readChar); why == "" {
+								s.OK(rule, k3, m.InstrPos(c), "%s returns standing on the closing delimiter (case evaluation on `\"ab\" x`, `\"\" x`, `'ab' x`); the one readChar between its return and newToken is made under its verdict and skips that delimiter", canonFnName(rc.Call.StaticCallee()))
+								between = nil
 							}
 						}
 						if between != nil {
@@ -797,6 +808,75 @@ func (m *Model) RunNoReadPastEnd(s *Sink, rule string) {
 	if n == 0 {
 		s.OK(rule, "lexer|no scanner computes a verdict from the current character and reads on", "-", "no lexer function with a bool result compared from l.char followed by a read")
 	}
+}
+
+// skipsDelimiterForReader: "" when the instruction x — between the return of the reader call rc and newToken — is a direct
+// readChar made only under the reader's verdict being true, and the reader leaves the lexer on the delimiter it
+// started on. Otherwise the reason why not.
+func (m *Model) skipsDelimiterForReader(rc *ssa.Call, x ssa.Instruction, readChar *ssa.Function) string {
+	xc, ok := x.(*ssa.Call)
+	if !ok || xc.Call.StaticCallee() != readChar {
+		return "not a direct readChar"
+	}
+	reader := rc.Call.StaticCallee()
+	vi := verdictIndexAny(reader)
+	if vi < 0 || reader.Signature.Results().Len() < 2 {
+		return "the reader has no verdict"
+	}
+	var verdict ssa.Value
+	for _, r := range *rc.Referrers() {
+		if ex, isEx := r.(*ssa.Extract); isEx && ex.Index == vi {
+			verdict = ex
+		}
+	}
+	if verdict == nil {
+		return "the verdict is not looked at"
+	}
+	guarded := false
+	for _, f := range expandFacts(factsAt(x.Block())) {
+		if f.Cond == verdict && f.Holds {
+			guarded = true
+		}
+	}
+	if !guarded {
+		return "the read is not made under the verdict"
+	}
+	lexT := m.namedType("lexer", "Lexer")
+	if lexT == nil || len(reader.Params) != 1 {
+		return "the reader is not a method of the lexer alone"
+	}
+	fChar := -1
+	st := lexT.Underlying().(*types.Struct)
+	for i := 0; i < st.NumFields(); i++ {
+		if canonFieldName(lexT, i, st.Field(i).Name()) == "char" {
+			fChar = i
+		}
+	}
+	if fChar < 0 {
+		return "Lexer.char not found"
+	}
+	for _, in := range []string{"\"ab\" x", "\"\" x", "'ab' x"} {
+		lx, okL := m.lexerAt(in, 0)
+		if !okL {
+			return "lexer.New could not be evaluated"
+		}
+		ip := &Interp{m: m, useGlobals: true}
+		if _, okR := ip.Run(reader, []any{lx}); !okR || ip.stuck != "" {
+			return "the reader could not be evaluated: " + ip.stuck
+		}
+		obj, isS := lx.(*iStruct)
+		if !isS {
+			return "the lexer object is not a struct"
+		}
+		cv, isK := obj.fields[fChar].(constant.Value)
+		if !isK {
+			return "the current character after the reader is not known"
+		}
+		if v, _ := constant.Int64Val(constant.ToInt(cv)); v != int64(in[0]) {
+			return fmt.Sprintf("on %s the reader does not stop on the closing delimiter", in)
+		}
+	}
+	return ""
 }
 
 // verdictIndexAny: the index of the last bool result (also of a function with a single result).
